@@ -13,7 +13,9 @@ import (
 	cstypes "github.com/tendermint/tendermint/consensus/types"
 	"github.com/tendermint/tendermint/crypto/ed25519"
 	vp "github.com/tendermint/tendermint/internal/verifvp"
+	"github.com/tendermint/tendermint/libs/bits"
 	"github.com/tendermint/tendermint/libs/log"
+	"github.com/tendermint/tendermint/p2p"
 	tmproto "github.com/tendermint/tendermint/proto/tendermint/types"
 	sm "github.com/tendermint/tendermint/state"
 	"github.com/tendermint/tendermint/types"
@@ -195,4 +197,83 @@ func VP_C17_CoreSurvivesBlockPart() {
 		vp.Reach("block-completed?")
 		vp.Assert(cs.ProposalBlock.HashesTo(blockA.Hash()), "C17.core.only-the-proposed-block-is-assembled-from-parts")
 	}
+}
+
+// ---------------------------------------------------------------- C17-H2 (consensus reactor, state channel)
+
+type vpReactorPeer struct {
+	p2p.Peer
+	kv map[string]interface{}
+}
+
+func (p *vpReactorPeer) ID() p2p.ID                        { return "hostile" }
+func (p *vpReactorPeer) Get(k string) interface{}          { return p.kv[k] }
+func (p *vpReactorPeer) Set(k string, v interface{})       { p.kv[k] = v }
+func (p *vpReactorPeer) SendEnvelope(p2p.Envelope) bool    { return true }
+func (p *vpReactorPeer) TrySendEnvelope(p2p.Envelope) bool { return true }
+
+// One state-channel message with arbitrary field values reaches the real Reactor.ReceiveEnvelope.
+// At worst the peer is stopped; afterwards neither the consensus state nor the peer state is left
+// locked (the node is not wedged), whether the call returned or panicked (a panic is caught by the
+// connection's receive routine and drops the peer).
+func VP_C17_ReactorStateMessages() {
+	cs, _ := vpBareState()
+	conR := NewReactor(cs, true)
+	conR.SetLogger(log.NewNopLogger())
+	stopped := 0
+	vp.Stub("(*github.com/tendermint/tendermint/libs/service.BaseService).IsRunning", func() bool { return true })
+	vp.Stub("(*github.com/tendermint/tendermint/p2p.Switch).StopPeerForError", func(sw *p2p.Switch, peer p2p.Peer, reason interface{}) { stopped++ })
+	peer := &vpReactorPeer{kv: map[string]interface{}{}}
+	ps := NewPeerState(peer).SetLogger(log.NewNopLogger())
+	peer.Set(types.PeerStateKey, ps)
+	var msg Message
+	h := vp.Int64("height")
+	vp.Assume(vp.And(h >= 0, h <= 3))
+	r := vp.Int32("round")
+	vp.Assume(vp.And(r >= -1, r <= 2))
+	switch vp.Choice("message", 4) {
+	case 0:
+		st := vp.Uint8("step")
+		vp.Assume(st <= 9)
+		lcr := vp.Int32("last-commit-round")
+		vp.Assume(vp.And(lcr >= -2, lcr <= 2))
+		msg = &NewRoundStepMessage{Height: h, Round: r, Step: cstypes.RoundStepType(st), SecondsSinceStartTime: 1, LastCommitRound: lcr}
+	case 1:
+		idx := vp.Int32("index")
+		vp.Assume(vp.And(idx >= -1, idx <= 5))
+		msg = &HasVoteMessage{Height: h, Round: r, Type: tmproto.PrevoteType, Index: idx}
+	case 2:
+		msg = &VoteSetMaj23Message{Height: h, Round: r, Type: tmproto.PrecommitType, BlockID: types.BlockID{Hash: tmhashOf("x"), PartSetHeader: types.PartSetHeader{Total: 1, Hash: tmhashOf("y")}}}
+	case 3:
+		pol := vp.Int32("proposal-pol-round")
+		vp.Assume(vp.And(pol >= -1, pol <= 2))
+		msg = &ProposalPOLMessage{Height: h, ProposalPOLRound: pol, ProposalPOL: bits.NewBitArray(int(vp.Range("pol-bits", 1, 5)))}
+	}
+	pb, err := MsgToProto(msg)
+	if err != nil {
+		return
+	}
+	vp.Reach("message-built")
+	func() {
+		defer func() {
+			if rec := recover(); rec != nil {
+				vp.Reach("receive-panicked?")
+			}
+		}()
+		conR.ReceiveEnvelope(p2p.Envelope{Src: peer, ChannelID: StateChannel, Message: pb})
+	}()
+	free := make(chan struct{}, 1)
+	go func() {
+		cs.GetRoundState() // takes the consensus state's lock
+		ps.GetRoundState() // takes the peer state's lock
+		free <- struct{}{}
+	}()
+	vp.Settle()
+	select {
+	case <-free:
+		vp.Reach("not-wedged")
+	default:
+		vp.Assert(false, "C17.reactor.hostile-state-message-never-leaves-the-node's-locks-held")
+	}
+	_ = stopped
 }
